@@ -39,8 +39,9 @@ META = {
                  "(symmetry, single-valued flux, zero flux for constants) over grids x cell-wise SPD tensors x boundary layouts; "
                  "M-matrix signs, equality with Mpfa and linear exactness on the K-orthogonal subset (affine basis = all linear fields)",
     "text": "Bounded assurance only, on the enumerated family. The DESIGN's tier-P lemma (harmonic average symmetric and positive "
-            "for all reals) is NOT built here; only its instances are evaluated. Periodic/Robin boundaries and vector-source "
-            "matrices are not covered.",
+            "for all reals) is NOT built here; only its instances are evaluated. Periodic face pairs (non-uniform tensor grids, "
+            "heterogeneous K) and the Aavatsmark_transmissibilities variant on K-orthogonal grids are included. Robin boundaries and "
+            "vector-source matrices are not covered.",
     "note": "oracle = incidence + geometry arrays (C19/C21) and -(K grad p).n_f in dense numpy; tolerances 1e-10..1e-12 relative to max|t_f|",
 }
 
@@ -425,7 +426,10 @@ def replay(data):
     import porepy as pp
 
     inp = data["inputs"]
-    bad = evaluate(pp, inp["grid"], np.array(inp["K"]), inp["layout"], inp["korth"])
+    if inp.get("periodic"):
+        bad = evaluate_periodic(pp, inp["xs"], inp["ys"], inp["kxx"], inp["aavatsmark"])
+    else:
+        bad = evaluate(pp, inp["grid"], np.array(inp["K"]), inp["layout"], inp["korth"], aavatsmark=bool(inp.get("aavatsmark")))
     for b in bad:
         print("replay:", b)
     return bool(bad)
